@@ -325,6 +325,7 @@ func driveMain(args []string) int {
 				groups = append(groups, g)
 			}
 		}
+		var absent []int // ranks whose (type, namespace) group some list lacks entirely
 		for _, tok := range tokens {
 			density := rng.Float64()
 			if rng.Intn(3) == 0 {
@@ -341,6 +342,9 @@ func driveMain(args []string) int {
 			}
 			idx[tok] = []int{}
 			for r := 0; r < n; r++ {
+				if dropped[tab.group(r)] {
+					absent = append(absent, r)
+				}
 				if !dropped[tab.group(r)] && rng.Float64() < density {
 					idx[tok] = append(idx[tok], r)
 				}
@@ -383,9 +387,21 @@ func driveMain(args []string) int {
 					ok = top.Next()
 				} else {
 					var k int
-					switch rng.Intn(5) {
+					switch rng.Intn(6) {
 					case 0:
 						k = rng.Intn(n)
+					case 5:
+						// the last (largest-valued) rank of an absent group beyond the cursor, if there is one
+						k = rng.Intn(n)
+						if len(absent) > 0 {
+							a := absent[rng.Intn(len(absent))]
+							for a+1 < n && tab.group(a+1) == tab.group(a) {
+								a++
+							}
+							if a > cur {
+								k = a
+							}
+						}
 					case 1:
 						k = cur + 1 + rng.Intn(3)
 					case 2:
